@@ -100,7 +100,7 @@ func specResult(root *model.Node, op string) string {
 	f := model.Forest{root}
 	if treeHasInvalid(root) {
 		switch op {
-		case "dryrun", "mkdir", "verify", "mkdirfail", "verifyfail":
+		case "dryrun", "dryrun.json", "mkdir", "verify", "mkdirfail", "verifyfail":
 			return c13Rejected
 		}
 	}
@@ -142,6 +142,9 @@ func specResult(root *model.Node, op string) string {
 	case "json":
 		return f.String()
 	case "dryrun":
+		return model.DryRunReport(f, model.DefaultBranch, []string{".gz"})
+	case "dryrun.json":
+		// Output with the dry-run option AND a (meaningless) encode option: still the dry-run report
 		return model.DryRunReport(f, model.DefaultBranch, []string{".gz"})
 	case "mkdir":
 		return strings.Join(expectedCreated(f, []string{".gz"}, "T"), "\n")
@@ -390,6 +393,18 @@ func (t *liveTree) runOp(op, tmp string) string {
 			return "UNDECODABLE:" + err.Error()
 		}
 		return f.String()
+	case "dryrun.json":
+		w := mon.NewRecWriter()
+		o := Guard(func() error {
+			return gtree.OutputFromRoot(w, t.root, gtree.WithDryRun(), gtree.WithEncodeJSON(), gtree.WithFileExtensions([]string{".gz"}))
+		})
+		if treeHasInvalid(t.shape) {
+			return rejectedAs(o, false, 0)
+		}
+		if o.Panic != nil || o.Err != nil {
+			return "ERR:" + errStr(o.Err) + fmt.Sprint(o.Panic)
+		}
+		return string(w.Bytes())
 	case "dryrun":
 		var o Outcome
 		rep := captureColorOutput(func() {
@@ -474,6 +489,7 @@ func runC13(c *Ctx) bool {
 		{[]string{"iterbreak", "iter", "walk", "text"}, L - 2},     // an abandoned iterator, then further operations
 		{[]string{"mkdirfail", "mkdir", "verifyfail", "verify"}, L - 3},
 		{[]string{"mkdir", "verify"}, L - 2},
+		{[]string{"dryrun.json", "text.b3", "json"}, L - 2}, // dry run with a stray encode option, before and after other outputs
 	}
 	for _, ps := range passes {
 		var hist []string
@@ -564,7 +580,7 @@ func runC13(c *Ctx) bool {
 	return runC13Concurrent(c)
 }
 
-var c13Ops = []string{"text", "text.b3", "text.b6", "walk", "iter", "json", "walk.massive", "text.massive", "json.massive", "walkfail", "iterbreak", "textfail", "jsonfail", "dryrun", "mkdir", "verify", "mkdirfail", "verifyfail"}
+var c13Ops = []string{"text", "text.b3", "text.b6", "walk", "iter", "json", "walk.massive", "text.massive", "json.massive", "walkfail", "iterbreak", "textfail", "jsonfail", "dryrun", "mkdir", "verify", "mkdirfail", "verifyfail", "dryrun.json"}
 var c13Names = []string{"a", "b", "c", "x.gz", "d e", "日本", "x/y"} // the last one is not a path element: mkdir, verify and dry run must reject the tree, whatever happened to it before
 
 const c13Rejected = "REJECTED: invalid name, nothing created or reported"
